@@ -435,7 +435,143 @@ def gen_guards():
     X.write_if_changed('Guards', '\n'.join(L))
 
 
-GENERATORS = [gen_guards]
+# ------------------------------------------------------------------ round 3: text of the functions the model was written from
+def _body_after(src, start_pat, what):
+    """(comment-stripped, whitespace-free text of the brace block after the first match of start_pat, line)"""
+    m = X.find1(start_pat, src, what, re.S)
+    i = src.index('{', m.end() - 1)
+    depth, j = 0, i
+    while j < len(src):
+        if src[j] == '{':
+            depth += 1
+        elif src[j] == '}':
+            depth -= 1
+            if depth == 0:
+                return re.sub(r'\s+', '', src[i:j + 1]), X.lineno(src, m.start())
+        j += 1
+    raise X.ExtractError('unbalanced braces after ' + what)
+
+
+BN = 'src/Factored/Utils/BayesianNetwork.cpp'
+FC = 'src/Factored/Utils/Core.cpp'
+CM = 'src/Factored/MDP/CooperativeModel.cpp'
+UC = 'include/AIToolbox/Utils/Core.hpp'
+PC = 'src/Utils/Probability.cpp'
+# (name, file, signature regex, the one normalised body the Lean model (AITB.Model.CoopDyn / ModelState) was written from)
+BODY_SITES = [
+    ('checkEqualSmall', UC, r'inline\s+bool\s+checkEqualSmall\s*\(\s*const\s+double\s+a\s*,\s*const\s+double\s+b\s*\)\s*\{',
+     '{return(std::fabs(a-b)<=equalToleranceSmall);}'),
+    ('checkDifferentSmall', UC, r'inline\s+bool\s+checkDifferentSmall\s*\(\s*const\s+double\s+a\s*,\s*const\s+double\s+b\s*\)\s*\{',
+     '{return!checkEqualSmall(a,b);}'),
+    ('isProbabilityDense', PC, r'bool\s+isProbability\s*\(\s*const\s+Matrix2D\s*&\s*in\s*\)\s*\{',
+     '{for(size_trow=0;row<static_cast<size_t>(in.rows());++row)if(in.row(row).minCoeff()<0.0||checkDifferentSmall(in.row(row).sum(),1.0))returnfalse;returntrue;}'),
+    ('isProbabilityDense3D', PC, r'bool\s+isProbability\s*\(\s*const\s+Matrix3D\s*&\s*in\s*\)\s*\{',
+     '{for(constauto&m2:in)if(!isProbability(m2))returnfalse;returntrue;}'),
+    ('isProbabilitySparse', PC, r'bool\s+isProbability\s*\(\s*const\s+SparseMatrix2D\s*&\s*in\s*\)\s*\{',
+     '{for(size_trow=0;row<static_cast<size_t>(in.rows());++row)if(checkDifferentSmall(in.row(row).sum(),1.0)||checkDifferentSmall(in.row(row).cwiseAbs().sum(),1.0))returnfalse;returntrue;}'),
+    ('isProbabilitySparse3D', PC, r'bool\s+isProbability\s*\(\s*const\s+SparseMatrix3D\s*&\s*in\s*\)\s*\{',
+     '{for(constauto&m2:in)if(!isProbability(m2))returnfalse;returntrue;}'),
+    ('isProbabilityLoop', 'include/AIToolbox/Utils/Probability.hpp', r'bool\s+isProbability\s*\(\s*const\s+size_t\s+size\s*,\s*const\s+T\s*&\s*in\s*\)\s*\{',
+     '{doublep=0.0;for(size_ti=0;i<size;++i){constdoublevalue=static_cast<double>(in[i]);if(value<0.0)returnfalse;p+=value;}if(checkDifferentSmall(p,1.0))returnfalse;returntrue;}'),
+    ('isProbabilityLoop2D', 'include/AIToolbox/Utils/Probability.hpp', r'bool\s+isProbability\s*\(\s*const\s+size_t\s+rows\s*,\s*const\s+size_t\s+cols\s*,\s*const\s+T\s*&\s*in\s*\)\s*\{',
+     '{for(size_trow=0;row<rows;++row)if(!isProbability(cols,in[row]))returnfalse;returntrue;}'),
+    ('isProbabilityLoop3D', 'include/AIToolbox/Utils/Probability.hpp', r'bool\s+isProbability\s*\(\s*const\s+size_t\s+depth\s*,\s*const\s+size_t\s+rows\s*,\s*const\s+size_t\s+cols\s*,\s*const\s+T\s*&\s*in\s*\)\s*\{',
+     '{for(size_td=0;d<depth;++d)if(!isProbability(rows,cols,in[d]))returnfalse;returntrue;}'),
+    ('factorSpacePartial', FC, r'size_t\s+factorSpacePartial\s*\(\s*const\s+PartialKeys\s*&\s*ids\s*,\s*const\s+Factors\s*&\s*space\s*\)\s*\{',
+     '{size_tretval=1;for(constautoid:ids){if(std::numeric_limits<size_t>::max()/space[id]<retval)returnstd::numeric_limits<size_t>::max();retval*=space[id];}returnretval;}'),
+    ('toIndexPartial', FC, r'size_t\s+toIndexPartial\s*\(\s*const\s+PartialKeys\s*&\s*ids\s*,\s*const\s+Factors\s*&\s*space\s*,\s*const\s+Factors\s*&\s*f\s*\)\s*\{',
+     '{size_tresult=0;size_tmultiplier=1;for(autoid:ids){result+=multiplier*f[id];multiplier*=space[id];}returnresult;}'),
+    ('toIndexPartialPF', FC, r'size_t\s+toIndexPartial\s*\(\s*const\s+PartialKeys\s*&\s*ids\s*,\s*const\s+Factors\s*&\s*space\s*,\s*const\s+PartialFactors\s*&\s*pf\s*\)\s*\{',
+     '{size_tresult=0;size_tmultiplier=1;size_tj=0;for(autoid:ids){while(pf.first[j]!=id)++j;result+=multiplier*pf.second[j];multiplier*=space[id];}returnresult;}'),
+    ('ddnGetIdSA', BN, r'size_t\s+DDNGraph::getId\s*\(\s*const\s+size_t\s+feature\s*,\s*const\s+State\s*&\s*s\s*,\s*const\s+Action\s*&\s*a\s*\)\s*const\s*\{',
+     '{constauto[parentId,actionId]=getIds(feature,s,a);returngetId(feature,parentId,actionId);}'),
+    ('ddnGetIdPF', BN, r'size_t\s+DDNGraph::getId\s*\(\s*const\s+size_t\s+feature\s*,\s*const\s+PartialState\s*&\s*s\s*,\s*const\s+PartialAction\s*&\s*a\s*\)\s*const\s*\{',
+     '{constauto[parentId,actionId]=getIds(feature,s,a);returngetId(feature,parentId,actionId);}'),
+    ('ddnGetId3', BN, r'size_t\s+DDNGraph::getId\s*\(\s*const\s+size_t\s+feature\s*,\s*size_t\s+parentId\s*,\s*size_t\s+actionId\s*\)\s*const\s*\{',
+     '{returnstartIds_[feature][actionId]+parentId;}'),
+    ('ddnGetIdsSA', BN, r'DDNGraph::getIds\s*\(\s*const\s+size_t\s+feature\s*,\s*const\s+State\s*&\s*s\s*,\s*const\s+Action\s*&\s*a\s*\)\s*const\s*\{',
+     '{constautoactionId=toIndexPartial(parents_[feature].agents,A,a);constauto&features=parents_[feature].features[actionId];constautoparentId=toIndexPartial(features,S,s);return{parentId,actionId};}'),
+    ('ddnGetIdsPF', BN, r'DDNGraph::getIds\s*\(\s*const\s+size_t\s+feature\s*,\s*const\s+PartialState\s*&\s*s\s*,\s*const\s+PartialAction\s*&\s*a\s*\)\s*const\s*\{',
+     '{constautoactionId=toIndexPartial(parents_[feature].agents,A,a);constauto&features=parents_[feature].features[actionId];constautoparentId=toIndexPartial(features,S,s);return{parentId,actionId};}'),
+    ('ddnGetIdsOfRow', BN, r'DDNGraph::getIds\s*\(\s*const\s+size_t\s+feature\s*,\s*const\s+size_t\s+j\s*\)\s*const\s*\{',
+     '{std::pair<size_t,size_t>retval{0,startIds_[feature].size()-2};auto&[parentId,actionId]=retval;while(startIds_[feature][actionId]>j)--actionId;parentId=j-startIds_[feature][actionId];returnretval;}'),
+    ('ddnGetSize', BN, r'size_t\s+DDNGraph::getSize\s*\(\s*const\s+size_t\s+feature\s*\)\s*const\s*\{',
+     '{returnstartIds_[feature].back();}'),
+    ('ddnGetPartialSize1', BN, r'size_t\s+DDNGraph::getPartialSize\s*\(\s*const\s+size_t\s+feature\s*\)\s*const\s*\{',
+     '{returnparents_[feature].features.size();}'),
+    ('ddnGetPartialSize2', BN, r'size_t\s+DDNGraph::getPartialSize\s*\(\s*const\s+size_t\s+feature\s*,\s*const\s+size_t\s+actionId\s*\)\s*const\s*\{',
+     '{returnstartIds_[feature][actionId+1]-startIds_[feature][actionId];}'),
+    ('ddnTransitionProbability', BN, r'DDN::getTransitionProbability\s*\(\s*const\s+Factors\s*&\s*s\s*,\s*const\s+Factors\s*&\s*a\s*,\s*const\s+Factors\s*&\s*s1\s*\)\s*const\s*\{',
+     '{doubleretval=1.0;for(size_ti=0;i<graph.getS().size();++i){retval*=transitions[i](graph.getId(i,s,a),s1[i]);}returnretval;}'),
+    ('ddnTransitionProbabilityPF', BN, r'DDN::getTransitionProbability\s*\(\s*const\s+PartialFactors\s*&\s*s\s*,\s*const\s+PartialFactors\s*&\s*a\s*,\s*const\s+PartialFactors\s*&\s*s1\s*\)\s*const\s*\{',
+     '{doubleretval=1.0;for(size_tj=0;j<s1.first.size();++j){constautonodeId=s1.first[j];retval*=transitions[nodeId](graph.getId(nodeId,s,a),s1.second[j]);}returnretval;}'),
+    ('factoredMatrixGetValue', 'src/Factored/Utils/FactoredMatrix.cpp', r'FactoredMatrix2D::getValue\s*\(\s*const\s+Factors\s*&\s*space\s*,\s*const\s+Factors\s*&\s*actions\s*,\s*const\s+Factors\s*&\s*value\s*,\s*const\s+Factors\s*&\s*action\s*\)\s*const\s*\{',
+     '{doubleretval=0.0;for(constauto&e:bases){constautofid=toIndexPartial(e.tag,space,value);constautoaid=toIndexPartial(e.actionTag,actions,action);retval+=e.values(fid,aid);}returnretval;}'),
+    ('coopGetTransitionProbability', CM, r'double\s+CooperativeModel::getTransitionProbability\s*\(\s*const\s+State\s*&\s*s\s*,\s*const\s+Action\s*&\s*a\s*,\s*const\s+State\s*&\s*s1\s*\)\s*const\s*\{',
+     '{returntransitions_.getTransitionProbability(s,a,s1);}'),
+    ('coopGetExpectedReward', CM, r'double\s+CooperativeModel::getExpectedReward\s*\(\s*const\s+State\s*&\s*s\s*,\s*const\s+Action\s*&\s*a\s*,\s*const\s+State\s*&\s*\)\s*const\s*\{',
+     '{returnrewards_.getValue(graph_.getS(),graph_.getA(),s,a);}'),
+]
+
+
+def body_sites():
+    out = []
+    cache = {}
+    for name, rel, pat, want in BODY_SITES:
+        src = cache.setdefault(rel, X.strip_comments(X.read(rel)))
+        got, ln = _body_after(src, pat, f'{rel}: {name}')
+        if got != want:
+            # AITB_C06_LENIENT_SITES=1 (mutation trials only, tools/mutations_c06.py): skip the textual tie so that the trial shows
+            # what the behavioural clauses catch on their own; the site is then simply not listed (obligation `sites_all_listed` fails
+            # in Lean only when the Props module is rebuilt, which the trial tolerates)
+            if os.environ.get('AITB_C06_LENIENT_SITES') == '1':
+                out.append((name, rel, ln)); continue
+            raise X.ExtractError(f'{rel}:{ln}: {name} is not in the form the Lean model was written from: {got[:160]}')
+        out.append((name, rel, ln))
+    # DDNGraph::push: the startIds_ prefix sums (tail of the function, after the validation block)
+    src = cache.setdefault(BN, X.strip_comments(X.read(BN)))
+    body, ln = _body_after(src, r'void\s+DDNGraph::push\s*\(\s*ParentSet\s+parents\s*\)\s*\{', BN + ': DDNGraph::push')
+    tail = ('parents_.emplace_back(std::move(parents));auto&newParents=parents_.back();startIds_.emplace_back(newParents.features.size()+1);'
+            'auto&newStartIds=startIds_.back();size_tnewStartId=0;for(size_ti=0;i<newParents.features.size();++i){newStartIds[i]=newStartId;'
+            'newStartId+=factorSpacePartial(newParents.features[i],S);}newStartIds.back()=newStartId;}')
+    if not body.endswith(tail) and os.environ.get('AITB_C06_LENIENT_SITES') != '1':
+        raise X.ExtractError(f'{BN}:{ln}: DDNGraph::push no longer ends with the modelled startIds_ prefix-sum loop')
+    out.append(('ddnPushStartIds', BN, ln))
+    # CooperativeModel copy constructor: the DDN of the copy refers to the COPY's graph
+    m = X.find1(r'CooperativeModel::CooperativeModel\s*\(\s*const\s+CooperativeModel\s*&\s*other\s*\)\s*:(.*?)\{\s*\}', cache.setdefault(CM, X.strip_comments(X.read(CM))), CM + ': copy constructor', re.S)
+    init = re.sub(r'\s+', '', m.group(1))
+    if init != 'discount_(other.discount_),graph_(other.graph_),transitions_({graph_,other.transitions_.transitions}),rewards_(other.rewards_),rand_(other.rand_)' \
+            and os.environ.get('AITB_C06_LENIENT_SITES') != '1':
+        raise X.ExtractError(f'{CM}: copy constructor initialiser list changed: {init[:200]}')
+    out.append(('coopCopyCtor', CM, X.lineno(cache[CM], m.start())))
+    # the stream loaders (AITB.Model.Loader): log messages removed, class name abstracted
+    io = cache.setdefault('src/MDP/IO.cpp', X.strip_comments(X.read('src/MDP/IO.cpp')))
+    want = ('{CLSin(m.getS(),m.getA());doublediscount;if(!(is>>discount)){returnis;}elsein.setDiscount(discount);autotransitions=in.getTransitionFunction();'
+            'if(!read(is,transitions)){returnis;}else{try{in.setTransitionFunction(transitions);}catch(conststd::invalid_argument&){is.setstate(std::ios::failbit);returnis;}}'
+            'autorewards=in.getRewardFunction();if(!read(is,rewards)){returnis;}elsein.setRewardFunction(rewards);m=std::move(in);returnis;}')
+    for name, cls in (('loadModel', 'Model'), ('loadSparseModel', 'SparseModel')):
+        got, ln = _body_after(io, r'std::istream\s*&\s*operator>>\s*\(\s*std::istream\s*&\s*is\s*,\s*' + cls + r'\s*&\s*m\s*\)\s*\{', 'src/MDP/IO.cpp: operator>> ' + cls)
+        got = re.sub(r'AI_LOGGER\(AI_SEVERITY_\w+,"[^"]*"\);', '', got)
+        if got != want.replace('CLS', cls) and os.environ.get('AITB_C06_LENIENT_SITES') != '1':
+            raise X.ExtractError(f'src/MDP/IO.cpp:{ln}: operator>>(istream&, {cls}&) is not in the form the Lean model (AITB.Model.Loader) was written from: {got[:200]}')
+        out.append((name, 'src/MDP/IO.cpp', ln))
+    return out
+
+
+def gen_sites():
+    sites = body_sites()
+    L = ['/- GENERATED by tools/extract_c06.py from the library source — do not edit. -/', 'namespace AITB.Gen.C06Sites', '',
+         '/-- functions whose comment-stripped text is, today, exactly the text the Lean model (AITB.Model.ModelState: tolerance helpers and the',
+         '    isProbability family; AITB.Model.CoopDyn: DDN row ids, dynamics, rewards) was written from: (name, file, line).',
+         '    Any other text is a broken tie (ExtractError), so presence in this list is the fact. -/',
+         'def asModelled : List (String × String × Nat) := [']
+    for i, (n, rel, ln) in enumerate(sites):
+        L.append(f'  ("{n}", "{rel}", {ln})' + (',' if i + 1 < len(sites) else ''))
+    L += [']', '', 'end AITB.Gen.C06Sites', '']
+    X.write_if_changed('C06Sites', '\n'.join(L))
+
+
+GENERATORS = [gen_guards, gen_sites]
 
 if __name__ == '__main__':
     gen_guards()
